@@ -38,6 +38,8 @@ type Policy struct {
 type Model struct {
 	Cfg      Config
 	Policies []*Policy
+	Ref      []*RefUpstream // C14: the reference resolution of the document
+	DocErr   error          // C14: the reference resolver rejects the document
 }
 
 func optStrings(o map[string]any, k string) []string {
@@ -89,6 +91,16 @@ func optDur(o map[string]any, k string) time.Duration {
 // its parent resolved to and changes only what it states.
 func NewModel(cfg Config) *Model {
 	m := &Model{Cfg: cfg}
+	if cfg.Doc != nil {
+		ups, err := cfg.Doc.Resolve(cfg)
+		m.DocErr = err
+		for _, u := range ups {
+			p := u.Policy
+			m.Policies = append(m.Policies, &p)
+			m.Ref = append(m.Ref, u)
+		}
+		return m
+	}
 	base := &Policy{Addresses: cfg.DefaultAddresses, Domains: cfg.DefaultDomains, Groups: cfg.DefaultGroups, Slug: cfg.Slug, Timeout: 10 * time.Second}
 	var extras []*Policy
 	for _, r := range cfg.Routes {
